@@ -948,6 +948,8 @@ func (in *Interp) havocFormat(f NF) NF {
 	if hi > 64 || hi == posInf {
 		hi = 64
 	}
+	in.p.violate("over-approximation: message text is used as a fmt format string and may contain '%' (output arbitrary)", nil)
+	in.p.abort("end-violated", "symbolic format string with '%'")
 	a := in.p.newAtom("fmthavoc", setAll, 0, hi+24)
 	return NF{{atom: a.id}}
 }
